@@ -38,11 +38,19 @@ class C12(FCheck):
 
     def gen_case(self, r, idx, tier):
         driver, workers, bs = gen.pick_config(r, multiblock=True)
+        if bs == 7:
+            bs = r.choice([7, 1000, 512])
         cap = 3000 if bs < 64 else 200_000
         ops = gen.small_tree(r, "src", nfiles=r.randrange(1, 6), links=r.random() < 0.3, specials=False,
                              sizes=lambda rr: gen.boundary_size(rr, bs, cap=cap), bs=bs)
         if bs >= 4096 and r.random() < 0.5:
             ops.append(gen.f_op("src/big", min(cap, bs * r.randrange(2, 7) + r.choice([0, 1])), pat=r.randrange(1, 1 << 30)))
+        kernel = {}
+        if bs >= 512 and r.random() < 0.35:
+            # sparse file whose extent map reaches past EOF: block jobs that end early or lie beyond EOF
+            ln, runs = gen.sparse_layout(r, style=r.choice(["tail-unaligned", "inter", "trail", "lead"]), max_runs=3)
+            ops.append(gen.f_op("src/sparse", ln, runs=runs))
+            kernel = {"fiemap": "emulate", "fiemap_round_eof": r.random() < 0.6, "fiemap_past_eof": r.choice([0, 0, 4096, 65536])}
         flags = {"r": True}
         if r.random() < 0.2:
             flags["fsync"] = True
@@ -54,7 +62,7 @@ class C12(FCheck):
         updater = ["record", "channel", "noop"][idx % 3]
         mode = ["thread", "inline"][(idx // 3) % 2]
         return {"setup": ops, "bin": "probe", "steps": [{"inv": inv, "argv": probe_argv(inv, updater, mode)}], "updater": updater, "mode": mode,
-                "max_events": 400000}
+                "max_events": 400000, "kernel": kernel}
 
     def _stream(self, res, verdict, case):
         f = []
